@@ -276,7 +276,11 @@ class PM(pydantic.BaseModel):
 def arg_values(rng: Rng) -> list:
     """(value, independently written JSON document the consumer must receive — None = no payload)"""
     r = rng.random()
-    plain = [0, False, "", [], {}, 1, "text", [1, [2, {"k": None}]], {"a": {"b": [1.5, True]}}, {"__repid_payload": 1}, r]
+    plain = [0, False, "", [], {}, 1, "text", [1, [2, {"k": None}]], {"a": {"b": [1.5, True]}}, {"__repid_payload": 1}, r,
+             # the reserved marker anywhere but at the start of the payload is ordinary data
+             {"x": "__repid_payload_id"}, {"ref": "abc", "__repid_payload_id": "id-3_x"}, ["x", "__repid_payload_id"],
+             # (the bare string "__repid_payload_id" serialises to a payload that starts with the marker: excluded by the statement)
+             {"a": {"__repid_payload_id": "id-5_x"}}]
     out = [(None, None)] + [(v, json.loads(json.dumps(v))) for v in plain]
     out.append((DC(1, "z", date(2024, 2, 29)), {"a": 1, "b": "z", "when": "2024-02-29"}))
     out.append((PM(x=3, y=["q"], d=timedelta(seconds=1.5)), {"x": 3, "y": ["q"], "d": "PT1.5S"}))
@@ -331,7 +335,13 @@ async def end_to_end(kind: str, rng: Rng, n: int) -> list[dict]:
         except asyncio.TimeoutError:
             out.append({"i": i, "error": "not delivered", "value": repr(val), "broker": kind, "queue": q, "priority": int(prio)})
             continue
-        payload = await proc.get_payload(got[1])
+        try:
+            payload = await proc.get_payload(got[1])
+        except Exception as e:  # noqa: BLE001
+            out.append({"i": i, "error": f"the worker could not resolve the payload: {type(e).__name__}: {e}", "value": repr(val),
+                        "broker": kind, "bucket": bucket, "got_payload": got[1]})
+            await broker.ack(got[0])
+            continue
         try:
             doc_ok = (payload == "") if doc is None else (json.loads(payload) == doc)
         except Exception:  # noqa: BLE001
